@@ -41,8 +41,8 @@ REQUIRED = ['recursiveloader:ManifestRecursiveLoader.save_manifests',
             'cli_updates', 'cli_history_steps', 'cli_histories_verified',
             'same_loader_rounds', 'profile_updates_completed']
 ASSUMPTIONS = ['nothing is claimed when update or save raised (C10 / C18 watch that)',
-               'generated histories use the default profile; the ebuild profiles are '
-               'driven on the adopt layouts here and on whole repositories in C19']
+               'one update round in seven runs under an ebuild profile (plus the adopt '
+               'layouts); whole ebuild repositories are C19']
 
 PRIOR = (gmutate.FS_CLASSES * 2 + ['m-digest', 'm-size', 'm-drop', 'm-ghost',
                                    'm-conflict', 'm-disjoint-wrong', 'm-compatible-dup',
@@ -99,6 +99,8 @@ def do_update(root, opt, loader=None, keep=None):
                 argv.append('--force-rewrite')
             if opt['watermark'] is not None:
                 argv += ['-c', str(opt['watermark']), '-C', opt['format']]
+            if profile_of(opt):
+                argv += ['-p', profile_of(opt)]
             argv.append(os.path.join(root, opt['scope']) if opt['scope'] else root)
             try:
                 rc = gcli.main(argv)
@@ -107,11 +109,16 @@ def do_update(root, opt, loader=None, keep=None):
             if rc != 0:
                 return ('rc', rc)
             return ('ok', None)
+        kw = {}
+        if profile_of(opt):
+            from gemato.profile import get_profile_by_name
+            kw['profile'] = get_profile_by_name(profile_of(opt))
         with walkperm.WalkPermuter(opt['wseed']):
             m = ManifestRecursiveLoader(
                 top, verify_openpgp=False, hashes=list(opt['hashes']),
                 allow_create=opt['create'], sort=opt['sort'],
-                compress_watermark=opt['watermark'], compress_format=opt['format'])
+                compress_watermark=opt['watermark'], compress_format=opt['format'],
+                **kw)
             if keep is not None:
                 keep.append(m)
             m.update_entries_for_directory(opt['scope'])
@@ -163,7 +170,8 @@ def pre_state(root):
                         mmatch.check_file(root, full, e['size'], e['sums']) is not None:
                     stale.add(full)
     return {'dup_paths': dup_paths, 'same_dir_chain': same_dir_chain, 'stale': stale,
-            'dup_manifests': sorted(p for p in dup_paths if p in mans)}
+            'dup_manifests': sorted(p for p in dup_paths if p in mans),
+            'data_listed_dirs': data_listed_dirs(root, mans)}
 
 
 def _logical(mp):
@@ -171,25 +179,68 @@ def _logical(mp):
     return mp[:-len(sfx) - 1] if sfx else mp
 
 
-def label(finding, pre, scope='', root=None):
+def referenced_dirs(mans):
+    """Directories holding a Manifest that some MANIFEST entry in @mans names."""
+    out = set()
+    for mp, ents in mans.items():
+        mdir = os.path.dirname(mp)
+        for e in ents:
+            if e['tag'] == 'MANIFEST':
+                out.add(os.path.dirname(mtext.full_path(mdir, e)))
+    return out
+
+
+def data_listed_dirs(root, mans):
+    """Directories holding a Manifest-named file that @mans list by non-MANIFEST
+    entries only (a plain file as far as verification is concerned) and no
+    MANIFEST-referenced Manifest."""
+    ref = referenced_dirs(mans)
+    out = set()
+    for mp, ents in mans.items():
+        mdir = os.path.dirname(mp)
+        for e in ents:
+            if e['tag'] in ('DATA', 'MISC', 'EBUILD', 'AUX'):
+                full = mtext.full_path(mdir, e)
+                if os.path.basename(full) in MAN_NAMES and \
+                        os.path.dirname(full) not in ref:
+                    out.add(os.path.dirname(full))
+    return out
+
+
+def label(finding, pre, scope='', root=None, profile=None):
     kind, path, det = finding
-    if kind == 'uncovered' and root is not None and pre.get('dup_manifests'):
+    if profile and root is not None and pre.get('data_listed_dirs'):
+        # D33: the profile wanted a Manifest where a data-listed Manifest name sits
+        now, _ = update_post.reachable_manifests(root, 'Manifest')
+        ref = referenced_dirs(now)
+        if any(d in ref and mtext.comp_prefix(path, d)
+               for d in pre['data_listed_dirs']):
+            return 'profile-adopts-data-listed-manifest:' + kind
+    if root is not None and pre.get('dup_manifests'):
         # a Manifest that was listed twice in one Manifest file and lost its MANIFEST
         # entry to the same-Manifest deduplication (D20) is no longer in use: the
-        # files it covered are uncovered
+        # files it covered are uncovered (under a profile that wants a Manifest in
+        # that directory a new, empty one takes its place)
         now, _ = update_post.reachable_manifests(root, 'Manifest')
         in_use = {_logical(m) for m in now}
         for dm in pre['dup_manifests']:
-            if _logical(dm) not in in_use and mtext.comp_prefix(
-                    os.path.dirname(path), os.path.dirname(dm)) \
-                    and mtext.comp_prefix(dm, scope):
+            if not mtext.comp_prefix(dm, scope):
+                continue
+            beneath = mtext.comp_prefix(os.path.dirname(path), os.path.dirname(dm)) \
+                or _logical(path) == _logical(dm)
+            if kind == 'uncovered' and beneath and (_logical(dm) not in in_use
+                                                    or profile):
                 return 'same-manifest-duplicate:manifest-unreferenced'
+            if profile and beneath:
+                return 'same-manifest-duplicate:' + kind
     if kind == 'manifest-entry-stale' and scope and path in pre['stale'] \
             and not mtext.comp_prefix(os.path.dirname(path), scope):
         return 'stale-chain-above-subdir-scope'
     if kind == 'uncovered' and '/' not in path and path in MAN_NAMES:
         return 'toplevel-manifest-named-file-uncovered'
-    if path in pre['dup_paths'] and mtext.comp_prefix(path, scope):
+    if (path in pre['dup_paths'] or (os.path.basename(path) in MAN_NAMES and _logical(
+            path) in {_logical(p) for p in pre['dup_manifests']})) \
+            and mtext.comp_prefix(path, scope):
         # (deduplication only touches entries beneath the updated directory)
         return 'same-manifest-duplicate:' + kind
     return kind
@@ -243,14 +294,16 @@ def judge_round(ctx, root, case, rnd, opt, loader=None, keep=None):
     ctx.count('updates_completed')
     if opt['api'] == 'cli':
         ctx.count('cli_updates')
-    detail = {'round': rnd, 'opt': opt}
+    if profile_of(opt) and loader is None:
+        ctx.count('profile_updates_completed')
+    detail = {'round': rnd, 'opt': opt, 'profile': profile_of(opt)}
     findings = update_post.check(root, 'Manifest', opt['scope'], opt['hashes'])
     ctx.count('postconditions_checked')
     if findings:
         detail['findings'] = findings[:8]
         done = set()
         for f in findings:
-            lb = label(f, pre, opt['scope'], root)
+            lb = label(f, pre, opt['scope'], root, profile_of(opt))
             if lb in done:
                 continue
             done.add(lb)
@@ -283,12 +336,23 @@ def gen_options(rng, root, first, absent):
     dirs = scenario.existing_dirs(root)
     scope = '' if (absent or rng.random() < 0.7) else rng.choice(dirs)
     wm = rng.choice([None, None, 0, 100, 10**6])
-    return {'api': 'cli' if rng.random() < 0.2 else 'lib',
+    return with_profile({'api': 'cli' if rng.random() < 0.2 else 'lib',
             'create': bool(absent and first),
             'hashes': sorted(rng.sample(mtext.supported_hashes(), rng.randint(1, 3))),
             'sort': rng.random() < 0.5, 'force': rng.random() < 0.3,
             'watermark': wm, 'format': rng.choice(['gz', 'bz2', 'lzma', 'xz']),
-            'scope': scope, 'wseed': rng.randrange(1 << 30)}
+            'scope': scope, 'wseed': rng.randrange(1 << 30)})
+
+
+def with_profile(opt):
+    """Every seventh set of options or so runs under one of the ebuild profiles
+    (derived from the walk seed, so that the other draws stay what they were)."""
+    opt['profile'] = {0: 'ebuild', 1: 'old-ebuild'}.get(opt['wseed'] % 14)
+    return opt
+
+
+def profile_of(opt):
+    return opt.get('profile')
 
 
 def gen_history(rng, root, big=False):
